@@ -165,6 +165,9 @@ func RunReplay(t *testing.T, entry func()) {
 		}()
 		entry()
 	}()
+	for _, c := range Covered {
+		fmt.Println("REPLAY-COVER:", c)
+	}
 	for _, o := range Observed {
 		fmt.Println("REPLAY-OBSERVED:", o)
 	}
